@@ -14,7 +14,7 @@ import (
 
 func init() {
 	Register(&World{Name: "pardo", Episodes: true, Props: []string{"C13"}, Concurrent: true, Timed: true, MaxSteps: 6000, Run: pardoWorld})
-	ExpectedProbes["pardo"] = []string{"sequential-fast-path", "parallel-path", "failure-in-last-index", "two-failures", "caller-cancel-midflight", "waiter-released-by-failure", "parallelism-from-gomaxprocs", "n-zero", "caller-context-without-done-channel"}
+	ExpectedProbes["pardo"] = []string{"sequential-fast-path", "parallel-path", "failure-in-last-index", "two-failures", "caller-cancel-midflight", "waiter-released-by-failure", "parallelism-from-gomaxprocs", "n-zero", "caller-context-without-done-channel", "caller-context-with-cause"}
 }
 
 type pardoCall struct {
@@ -126,13 +126,26 @@ func pardoWorld(r *R) {
 		caller = root
 	case 1:
 		caller = NewCtx(root, "caller")
+		if r.Choose(3, "caller-cause") == 2 {
+			// cancelled with a cause: Err() is still context.Canceled, and that is "the caller's
+			// context error"
+			caller = NewCauseCtx(root, "caller", NewErr("cause"))
+			r.Probe("caller-context-with-cause")
+		}
 	case 2:
 		caller = PreCancelled(root, "caller")
+		if r.Choose(3, "caller-cause") == 2 {
+			caller = PreCancelledCause(root, "caller", NewErr("cause"))
+			r.Probe("caller-context-with-cause")
+		}
 		r.Fault("ctx_precancelled")
 	case 3, 4:
 		// a caller with nothing to cancel: context.Background(), or a value on top of it
 		caller = BackgroundCtx("caller", callerKind == 4)
 		r.Probe("caller-context-without-done-channel")
+	}
+	if callerKind != 0 && r.Choose(6, "caller-uncomparable") == 5 {
+		caller.Uncomparable()
 	}
 	cancelSpin := r.Choose(12, "cancelspin")
 	r.Logf("config: variant=%d n=%d parallelism=%d eff=%d seq=%v callerKind=%d plans=%+v", variant, n, parallelism, eff, seq, callerKind, plans)
